@@ -14,6 +14,9 @@ for pid in ids:
         na.append({"property_id": pid, "reason": na_reasons.get(pid, "check not built yet (work in progress in this session; see DESIGN.md section 5 for the planned generator and oracle)")})
         continue
     prop = json.load(open(p))
+    if not prop.get("ready"):
+        na.append({"property_id": pid, "reason": na_reasons.get(pid, "check under construction in this session (harness not yet validated on the unchanged tree); see DESIGN.md section 5 for the planned generator and oracle")})
+        continue
     m = prop.get("manifest", {})
     checks.append({
         "property_id": pid,
